@@ -18,11 +18,16 @@ Both == ConfsA \cup {"AVR"}
 E == R.eps
 
 Applies(kinds) == R.kind \in kinds
-SameConfs == Applies({"SameAll", "SameUpToLabels", "SameHeavy", "Part", "EnvKept"}) => R.ca = R.cb
+SameConfs == Applies({"SameAll", "SameScores", "SameUpToLabels", "SameHeavy", "Part", "EnvKept"}) => R.ca = R.cb
 
 (* everything equal, labels included (C07, C13, C04 with supplied hydrogens, C15 on/off, C03) *)
 PAll(a, b)  == SameGroup(a, b, E, TRUE)
 SameAll == Applies({"SameAll"}) => \A c \in Both : SameGroups(R.A[c], R.B[c], PAll)
+(* every value equal, coupling marks not compared (C15: analysis on vs off) *)
+PScores(a, b) == SameKind(a, b) /\ SameDesolv(a, b, E) /\ SameLabels(a, b)
+                 /\ Near(a.pka6, b.pka6, E * (2 + Len(a.sc) + Len(a.bb) + Len(a.cb)))
+                 /\ DetsSame(a.sc, b.sc, E, TRUE) /\ DetsSame(a.bb, b.bb, E, TRUE) /\ DetsSame(a.cb, b.cb, E, TRUE)
+SameScores == Applies({"SameScores"}) => \A c \in Both : SameGroups(R.A[c], R.B[c], PScores)
 (* everything but the labels (C06) *)
 PLab(a, b)  == SameGroup(a, b, E, FALSE)
 SameUpToLabels == Applies({"SameUpToLabels"}) => \A c \in Both : SameGroups(R.A[c], R.B[c], PLab)
